@@ -184,6 +184,10 @@ pub fn smart_lengths(lane: usize, extra: &[usize]) -> Vec<usize> {
     v
 }
 
+/// Lengths well beyond every register geometry (blocked / chunked code paths switch on thresholds such as 1024, 2048, 4096):
+/// around the powers of two and a few primes.
+pub const LARGE_LENGTHS: [usize; 12] = [1023, 1025, 2047, 2048, 2049, 3001, 4095, 4097, 6145, 8191, 8193, 10007];
+
 pub fn len_bucket(n: usize) -> &'static str {
     match n {
         0 => "len:0",
